@@ -120,6 +120,12 @@ func events(stmts []ast.Stmt, out *[]string) {
 		case *ast.ForStmt, *ast.RangeStmt, *ast.SwitchStmt, *ast.TypeSwitchStmt, *ast.SelectStmt, *ast.GoStmt, *ast.DeferStmt, *ast.LabeledStmt:
 			*out = append(*out, "complex: "+renderMasked(s))
 		default:
+			// pure logging is not part of the handler's behaviour towards the file system or the client
+			if es, ok := st.(*ast.ExprStmt); ok {
+				if c, ok := es.X.(*ast.CallExpr); ok && strings.HasPrefix(callee(c), "log.") {
+					continue
+				}
+			}
 			*out = append(*out, renderMasked(s))
 		}
 	}
@@ -274,7 +280,7 @@ func callNames(n ast.Node) []string {
 	var res []string
 	for _, c := range callsIn(n) {
 		name := callee(c)
-		if name == "fmt.Sprintf" || strings.HasPrefix(name, "[]") {
+		if name == "fmt.Sprintf" || strings.HasPrefix(name, "[]") || strings.HasPrefix(name, "log.") {
 			continue
 		}
 		if name == "http.Error" && len(c.Args) == 3 {
